@@ -15,8 +15,11 @@ import time
 from vf import core
 
 MODULES = ["m", "M", "m2"]
-QUALNAMES = ["my_func", "myXfunc", "MY_FUNC", "my", "Foo.bar", "Foo.baz", "foo", "a%b", "aXYb", "a_b", "Foo", "my_func2"]
-PREFIXES = [None, "", "my_func", "my_", "my", "foo", "Foo", "Foo.", "a%b", "a", "MY", "%", "_", "a_", "f"]
+# names that collide under case folding, under LIKE wildcards (_ %), and under GLOB wildcards (* ? [...]) and regex metacharacters
+QUALNAMES = ["my_func", "myXfunc", "MY_FUNC", "my", "Foo.bar", "Foo.baz", "foo", "a%b", "aXYb", "a_b", "Foo", "my_func2",
+             "Box[int].get", "Boxi", "is_ok?", "is_okay", "a*b", "a.b"]
+PREFIXES = [None, "", "my_func", "my_", "my", "foo", "Foo", "Foo.", "a%b", "a", "MY", "%", "_", "a_", "f",
+            "Box[int]", "Box[", "Box", "is_ok?", "a*", "*", "?", "[", "a.", "a.b"]
 LIMITS = [1, 2, 1000]
 QMODULES = MODULES + ["zz", "%", "m_"]
 
@@ -142,7 +145,8 @@ ALL_QUERIES = [(m, p, n) for m in QMODULES for p in PREFIXES for n in LIMITS]
 BATCHES = [
     [("m", "my_func", 0, False), ("m", "myXfunc", 0, False), ("m", "MY_FUNC", 0, False)],
     [("m", "Foo.bar", 0, False), ("m", "foo", 0, False), ("M", "my_func", 0, False), ("m", "my_func", 1, False)],
-    [("m", "a%b", 0, False), ("m", "aXYb", 0, False), ("m2", "Foo.baz", 0, False), ("m", "my", 0, False), ("m", "a_b", 0, False)],
+    [("m", "a%b", 0, False), ("m", "aXYb", 0, False), ("m2", "Foo.baz", 0, False), ("m", "my", 0, False), ("m", "a_b", 0, False),
+     ("m", "Box[int].get", 0, False), ("m", "Boxi", 0, False), ("m", "is_ok?", 0, False), ("m", "is_okay", 0, False), ("m", "a*b", 0, False), ("m", "a.b", 0, False)],
     [("m", "my_func", 0, False), ("m", "x", 0, True), ("m", "Foo.baz", 0, False), ("m", "my_func", 0, False), ("M", "y", 0, True)],
 ]
 
